@@ -76,6 +76,9 @@ Next == /\ ~done /\ done' = TRUE
         /\ \A lg \in 5..10 : \A h \in ProbeHeights : Emit(<<"probe", lg, h>>, << Probe(lg, h) >>)
         /\ \A ub \in { UnitBlock(0, 0, 0, 0, 0, 0), UnitBlock(3, 5, 5, 120, 1, 2), UnitBlock(3, 5, 6, 120, 0, 3), UnitBlock(0, 1, 2, 77, 2, 0) } :
              Emit(<<"save", ub[1].v>>, << SaveCase(MakeMap(5, 2, 2, 2, 1, 0, 3), ub) >>)
+        \* a saved game wrapping a random map portion yields the same fields as the map file holding it
+        /\ \A r \in 1..(NRand \div 8) : LET m == [RMap(1000 + r) EXCEPT !.groups = <<>>] IN
+             Emit(<<"save-rand", Seed, r>>, << SaveCase(m, IF r % 2 = 0 THEN UnitBlock(3, 5, 5, 120, 1, 2) ELSE UnitBlock(0, 7, 6, 120, 0, 3)) >>)
         /\ \A w \in {32, 64, 128} : \A h \in 1..4 : Assert(Bijective(w, h), "bijective")
 Spec == Init /\ [][Next]_done
 ====
